@@ -221,7 +221,7 @@ func (g *G) plainStmt(sc *scope, depth int) []string {
 }
 
 func (g *G) tryPlain(sc *scope, depth int) []string {
-	k := g.pick("stmtkind", 29)
+	k := g.pick("stmtkind", 30)
 	switch k {
 	case 0, 1, 2:
 		return g.defineStmt(sc, depth)
@@ -291,6 +291,10 @@ func (g *G) tryPlain(sc *scope, depth int) []string {
 	case 28:
 		if !g.fn.pure {
 			return g.ptrPtrStmt(sc, depth)
+		}
+	case 29:
+		if !g.fn.pure && !g.cfg.NoClosures {
+			return g.effectfulOperandStmt(sc)
 		}
 	case 23:
 		if !g.cfg.NoBareBlocks && depth > 0 {
@@ -1282,5 +1286,63 @@ func (g *G) ptrPtrStmt(sc *scope, depth int) []string {
 	} else {
 		out = append(out, "**"+outer+" = "+g.expr(sc, elem, 1))
 	}
+	return out
+}
+
+// effectfulOperandStmt: an operator one of whose operands is a call with a visible effect (a
+// closure that counts its calls through a pointer) and whose other operand is a constant that may
+// decide the result on its own (x || true, x && false, x * 0, x & 0): the call must still run —
+// exactly once, and not at all when Go's short-circuit rule skips it (seeded change C01-13).
+func (g *G) effectfulOperandStmt(sc *scope) []string {
+	g.ctr++
+	n := g.ctr
+	cnt, fn, res, seen := fmt.Sprintf("ec%d", n), fmt.Sprintf("ef%d", n), fmt.Sprintf("er%d", n), fmt.Sprintf("es%d", n)
+	for _, x := range []string{cnt, fn, res, seen} {
+		g.fn.names[x] = true
+	}
+	g.label("effectful-operand-with-constant")
+	arg := g.expr(sc, TU64, 1)
+	var out []string
+	out = append(out, cnt+" := new(uint64)")
+	boolConst := func() string {
+		r := []string{"true", "false"}[g.pick("eoconst", 2)]
+		for _, c := range g.consts {
+			if c.T.K == KBool && g.chance("eoconstname", 40) {
+				r = c.Name
+			}
+		}
+		return r
+	}
+	if g.chance("eobool", 65) {
+		out = append(out, fmt.Sprintf("%s := func(x uint64) bool {\n\t*%s = *%s + 1\n\treturn x > %d\n}", fn, cnt, cnt, g.pick("eothr", 9)))
+		op := []string{"&&", "||"}[g.pick("eoop", 2)]
+		call := fn + "(" + arg + ")"
+		switch g.pick("eoside", 3) {
+		case 0: // constant on the right: the call always runs
+			out = append(out, fmt.Sprintf("%s := %s %s %s", res, call, op, boolConst()))
+		case 1: // constant on the left: the call runs unless the constant decides
+			out = append(out, fmt.Sprintf("%s := %s %s %s", res, boolConst(), op, call))
+		default: // two calls
+			out = append(out, fmt.Sprintf("%s := %s %s %s(%s)", res, call, op, fn, g.expr(sc, TU64, 0)))
+		}
+		g.declare(sc, &Var{Name: res, T: TBool})
+	} else {
+		out = append(out, fmt.Sprintf("%s := func(x uint64) uint64 {\n\t*%s = *%s + 1\n\treturn x + %d\n}", fn, cnt, cnt, g.pick("eoadd", 9)))
+		op := []string{"*", "&", "|", "-", "%"}[g.pick("eoaop", 5)]
+		k := map[string]string{"*": "0", "&": "0", "|": "18446744073709551615", "-": "0", "%": "1"}[op]
+		call := fn + "(" + arg + ")"
+		if op == "*" || op == "&" || op == "|" {
+			if g.chance("eoleftconst", 40) {
+				out = append(out, fmt.Sprintf("%s := %s %s %s", res, k, op, call))
+			} else {
+				out = append(out, fmt.Sprintf("%s := %s %s %s", res, call, op, k))
+			}
+		} else {
+			out = append(out, fmt.Sprintf("%s := %s %s %s", res, call, op, k))
+		}
+		g.declare(sc, &Var{Name: res, T: TU64})
+	}
+	out = append(out, seen+" := *"+cnt)
+	g.declare(sc, &Var{Name: seen, T: TU64})
 	return out
 }
